@@ -171,6 +171,8 @@ def make_jobs(ctx, njobs, quick):
         if rng.random() < 0.3:
             flags = {"normF": rng.choice([0, 1]), "normD": rng.choice([0, 1])}
         n = pick_n(rng, c.spb, quick)
+        if c.kind.startswith("dpcm") and rng.random() < 0.15:
+            n = rng.randrange(8000, 20000)          # beyond the 8192-byte staging buffer of xi.c
         if c.kind == "vox" and rng.random() < 0.8:
             n -= n % 2
         kind = rng.choice(["roundtrip", "partition", "stream"])
@@ -200,10 +202,23 @@ def make_jobs(ctx, njobs, quick):
         rty = tys[0] if kind == "roundtrip" else rng.choice(TYS)
         seekable = c.kind in ("paf24", "sds")
         rops = read_ops(rng, c, ch, F, rty, seekable and kind == "stream", 30 if quick else 60)
+        partread = False
+        if not seekable and kind == "stream":
+            # byte-stream codecs with running state cannot seek: the read side is cut into calls instead
+            # (the decoder state must survive call and staging-chunk boundaries)
+            partread = True
+            rops, left = [], F + 6
+            while left > 0:
+                k = min(left, rng.choice([1, 2, 3, 7, 64, 255, 512, 513, 4096, 4097, 8192, 8193, left]))
+                if c.kind == "vox":
+                    k += k % 2
+                rops.append(("r", rng.choice(TYS), "i", k))
+                left -= k
         if not seekable and rng.random() < 0.5:
             rops.append(("seek", rng.choice([0, 1, F]), rng.choice([0, 1, 2])))
         name = "%s-c%d-n%d-%s-%d" % (c.name(), ch, nfr, kind, len(jobs))
         j = Job(name, c, ch, sr, flags, calls, rops, kind)
+        j.partread = partread
         jobs.append(j)
         if kind == "partition" and nfr > 0:
             # twin: the same caller values per type run, written with one call per maximal run of equal type
@@ -333,7 +348,7 @@ def analyse(job, hs, impl, model, twins):
     F = info.get("frames", 0)
     reads = info["reads"]
     ch = job.ch
-    if reads:
+    if reads and not getattr(job, "partread", False):
         k0, t0, ret0, ref = reads[0]
         ty = t0[2]
         if ret0 != F * ch and not (c.kind == "vox"):
